@@ -178,6 +178,7 @@ def check(rep, prop, tier, seed, replay=None):
     # raw Utils.c shapes: real Avtp_GetField/SetField vs the hand Model, Model vs Spec
     rc = raw_cases(rng, thorough)
     raw_bad = raw_check(rep, prop, exe, rc)
+    cir_vs_real(rep, prop, exe, rc, 1200 if thorough else 260)
     cbmc_all_inputs(rep, prop, spec, thorough)
     pipeline.report_proof_failures(rep, prop, res, diff_groups)
     # ---- evidence ----------------------------------------------------------------------
@@ -270,6 +271,49 @@ def cbmc_all_inputs(rep, prop, spec, thorough):
                                   "statement": "for all buffer contents and all 64-bit values: result/stored bits = wire bits of the field, nothing else changes",
                                   "cmd": "cbmc -DQ=q -DOFF=o -DBITS=b -I /repo/include harness/cbmc/utils_all_inputs.c /repo/src/avtp/Utils.c --unwind 400 --unwinding-assertions --no-standard-checks [--big-endian -D__BYTE_ORDER__=__ORDER_BIG_ENDIAN__]"}
     return len(results) - n_ok
+
+
+def cir_vs_real(rep, prop, exe, rc, n):
+    """The serialised C text (Gen/Cir.lean) run by the Lean C semantics vs the real compiled
+    Avtp_GetField/Avtp_SetField on the same raw cases: the correspondence check of the
+    serialiser + semantics the code-level theorems rest on."""
+    import cirrun
+    import pipeline
+    gen = pipeline.translate()
+    if gen.get("failed") or gen.get("cir", {}).get("failed"):
+        return
+    ok, log = common.lake_build(["O1722.Gen.Cir", "O1722.CSem.Eval"])
+    if not ok:
+        return      # reported by the code-level stage as a refinement that does not check
+    step = max(1, len(rc.cases) // n)
+    idx = list(range(0, len(rc.cases), step))[:n]
+    cases = []
+    for i in idx:
+        ops = rc.cases[i]
+        buf = bytes.fromhex(ops[0].split()[2]) if ops[0].split()[2] != "-" else b""
+        t = ops[1].split()          # uget a off q o b L
+        v = int(ops[3].split()[7])  # uset a off q o b L v
+        cases.append((int(t[3]), int(t[4]), int(t[5]), list(buf), int(t[2]), v))
+    res = cirrun.utils_cases(cases)
+    sub = common.Cases()
+    for i in idx:
+        sub.add(rc.cases[i][:5])
+    rcode, c_out, err = common.run_c(exe, sub.render())
+    c_cases = common.split_cases(c_out)
+    nbad = 0
+    for k, i in enumerate(idx):
+        cl = [x for x in c_cases.get(k, []) if x != "bad-op"]
+        want = ("v " + res[k][0], res[k][1])
+        got = (cl[0] if cl else "?", cl[1].split()[-1] if len(cl) > 1 else "?")
+        if want != got:
+            nbad += 1
+            q, o, b = rc.tags[i]["shape"]
+            rep.violation("Utils:c-text-vs-real:field-spans-%d-quadlets:%s" % ((o + b + 31) // 32, "starts-mid-quadlet" if o else "quadlet-aligned"),
+                          {"kind": "serialised-C-text-under-the-Lean-C-semantics-differs-from-the-compiled-code",
+                           "ops": rc.cases[i][:5], "observed_real_code": cl, "c_text_under_CSem": list(res[k]),
+                           "note": "'stuck' = the C semantics met undefined behaviour (signed overflow, shift out of range, NULL) or ran out of fuel"})
+    rep.cov["c_text_vs_real"] = {"cases": len(idx), "disagreements": nbad,
+                                 "what": "Gen/Cir.lean (Avtp_GetField, Avtp_SetField) interpreted by CSem/Eval.lean vs the compiled library, raw descriptor shapes"}
 
 
 def raw_check(rep, prop, exe, rc):
